@@ -52,6 +52,12 @@ pub mod vm {
 pub mod typechecker {
     pub use crate::typechecker::TypeChecker;
 }
+pub mod bytecode_interpreter {
+    pub use crate::bytecode_interpreter::BytecodeInterpreter;
+}
+pub mod type_scheme {
+    pub use crate::typechecker::type_scheme::TypeScheme;
+}
 pub mod unit_registry {
     pub use crate::unit_registry::*;
 }
